@@ -2,24 +2,25 @@
 # tools/seedall.sh <PROP> <mutation-dir> [extra props...] : verify, run the checks, and store the result under /verif/seeded/
 set -u
 P=$1; D=$(readlink -f "$2"); shift 2
-name=$(echo "$D" | sed 's#/tmp/wt2/\(C[0-9]*\)/mutations/#\1-r2-#; s#/tmp/wt/##; s#/mutations/#-#; s#/#-#g')
+name=$(echo "$D" | sed 's#/tmp/wt2/\(C[0-9]*\)/mutations/#\1-r2-#; s#/tmp/wt4/\(C[0-9]*\)/mutations/#\1-r3-#; s#/tmp/wt/##; s#/mutations/#-#; s#/#-#g')
 out=/verif/seeded/$name
 mkdir -p "$out"
-v=$(/verif/tools/seedverify.sh "$D" 2>&1 | grep -v WARNING)
+T=$(dirname "$(readlink -f "$0")")
+v=$("$T"/seedverify.sh "$D" 2>&1 | grep -v WARNING)
 echo "$v" | tail -6
 if ! echo "$v" | grep -q "RESULT: confirmed"; then echo ">>> $name NOT CONFIRMED"; rm -rf "$out"; exit 1; fi
-r=$(/verif/tools/seedrun.sh "$D/patch.diff" $P "$@" 2>&1 | grep -v WARNING)
+r=$("$T"/seedrun.sh "$D/patch.diff" $P "$@" 2>&1 | grep -v WARNING)
 echo "$r"
 cp "$D/patch.diff" "$out/patch.diff"; cp "$D/demo.rs" "$out/demo.rs"; cp "$D/notes.md" "$out/notes.md" 2>/dev/null
 caught=$(echo "$r" | grep -E "^\[C[0-9]+\] rc=1" | sed 's/\] .*//; s/\[//' | tr '\n' ' ')
-python3 - "$out" "$P" "$caught" <<PY
-import json,sys
+SEED_OUT="$r" python3 - "$out" "$P" "$caught" "$@" <<PY
+import json,sys,os
 out,prop,caught=sys.argv[1],sys.argv[2],sys.argv[3].split()
 notes=open(out+'/notes.md').read() if __import__('os').path.exists(out+'/notes.md') else ''
 meta={"breaks_property":prop,"source":"independent sub-agent given only the property text and a scratch worktree","needs_to_manifest":notes[:1200],
  "confirmed":"tools/seedverify.sh: applies at /repo HEAD, compiles, existing test suite results identical, demo fails with the change and passes without",
  "checks_run":"tools/seedrun.sh (quick tier, default VERIF_SEED): "+" ".join([prop]+sys.argv[4:]),
- "caught_by":caught,"check_output":"""$r"""}
+ "caught_by":caught,"check_output":os.environ.get("SEED_OUT","")}
 json.dump(meta,open(out+'/meta.json','w'),indent=1)
 PY
 echo ">>> $name caught_by: ${caught:-NONE}"
